@@ -1002,7 +1002,7 @@ theorem coreExp_wf : (e : PExp) → coreExp e = true → WFx e
   | .call n args, h => by
     simp only [coreExp, Bool.and_eq_true, Bool.not_eq_true', bne_iff_ne, ne_eq] at h
     simp only [WFx]
-    exact ⟨h.1.2, h.1.1.2, coreList_wf args h.2⟩
+    exact ⟨h.1.2, h.1.1, coreList_wf args h.2⟩
   | .block k es, h => by
     simp only [coreExp, Bool.and_eq_true, Bool.not_eq_true', Option.isNone_iff_eq_none] at h
     simp only [WFx]
@@ -1026,8 +1026,12 @@ theorem coreList_wf : (es : List PExp) → coreList es = true → WFx.WFxs es
     exact ⟨coreExp_wf e h.1, coreList_wf es h.2⟩
 theorem coreIdx_wf : (es : List PExp) → coreIdx es = true → WFx.WFidx es
   | [], _ => by simp [WFx.WFidx]
-  | .num _ :: _, h => by simp [coreIdx] at h
-  | .str _ :: _, h => by simp [coreIdx] at h
+  | .num t :: es, h => by
+    simp only [coreIdx, Bool.and_eq_true, Bool.not_eq_true'] at h
+    simp only [WFx.WFidx]; exact ⟨h.1.1, coreIdx_wf es h.2⟩
+  | .str s :: es, h => by
+    simp only [coreIdx, Bool.and_eq_true, Bool.not_eq_true'] at h
+    simp only [WFx.WFidx]; exact ⟨h.1.1, coreIdx_wf es h.2⟩
   | .var i :: es, h => by
     simp only [coreIdx, Bool.and_eq_true] at h
     simp only [WFx.WFidx]; exact coreIdx_wf es h.2
